@@ -185,28 +185,33 @@ static scpi_result_t decoy_list(scpi_t * c) {
 static scpi_result_t decoy_q(scpi_t * c) { SCPI_ResultInt32(c, 15); SCPI_ResultText(c, "m\"q"); SCPI_ResultArbitraryBlock(c, "ab", 2); return SCPI_RES_OK; }
 static const scpi_command_t decoy_cmds[] = { { "DECoy#:NUMber#", decoy_num, 3 }, { "DECoy:LIST", decoy_list, 4 }, { "DECoy:Q?", decoy_q, 5 }, { "SYSTem:ERRor[:NEXT]?", SCPI_SystemErrorNextQ, 0 }, SCPI_CMD_LIST_END };
 static const scpi_unit_def_t decoy_units[] = { { "FOO", SCPI_UNIT_VOLT, 3 }, { "V", SCPI_UNIT_SECOND, 10 }, SCPI_UNITS_LIST_END };
-void vh_decoy_enable(unsigned every) { decoy_every = every; }
 uint64_t vh_decoy_runs(void) { return decoy_runs; }
-static void decoy_run(void) {
+/* What the decoy answers is not this facility's business (other checks decide the text of an error or the spelling of a number): the
+ * reference is what the same message produced on the same context when nothing else was going on - taken once, before the first case. */
+static char decoy_ref_log[sizeof decoy_log]; static char * decoy_ref_out; static size_t decoy_ref_len; static unsigned decoy_ref_flush; static int decoy_calibrated;
+static void decoy_exec(void) {
     static const char msg[] = "DEC7:NUM3 2 V;:DEC:LIST (5,1:2);Q?;:DEC:NOPE;:SYST:ERR?\n";
-    static const char want_log[] = "[7,3|20](5)(1:2)<2>"; /* "V" means 10 seconds in the decoy's own unit table (which has no name for plain seconds); NO_MORE after two entries */
-#if VH_HAS_INFO
-    static const char want_body[] = "15,\"m\"\"q\",#12ab;-113,\"Undefined header;:DEC:NOPE;\""; /* the library reports the unit as written, separator included */
-#else
-    static const char want_body[] = "15,\"m\"\"q\",#12ab;-113,\"Undefined header\"";
-#endif
-    char want_out[sizeof want_body + 8]; size_t want_len;
-    if (decoy_busy) return;
-    decoy_busy = 1;
-    want_len = (size_t) snprintf(want_out, sizeof want_out, "%s%s", want_body, SCPI_LINE_ENDING);
     if (!decoy) { decoy = vh_ctx_new(decoy_cmds, 96, 3, 80); decoy->ctx->units = decoy_units; decoy->log_enabled = 0; }
     vh_ctx_clear_capture(decoy); decoy_log_n = 0; decoy_log[0] = 0;
     { char * copy = (char *) malloc(sizeof msg - 1); memcpy(copy, msg, sizeof msg - 1); SCPI_Input(decoy->ctx, copy, (int) (sizeof msg - 1)); free(copy); }
+}
+void vh_decoy_enable(unsigned every) {
+    decoy_every = every;
+    if (every && !decoy_calibrated) {
+        decoy_busy = 1; decoy_exec();
+        memcpy(decoy_ref_log, decoy_log, sizeof decoy_log); decoy_ref_len = decoy->out.len; decoy_ref_out = (char *) malloc(decoy_ref_len + 1); memcpy(decoy_ref_out, decoy->out.p ? decoy->out.p : "", decoy_ref_len); decoy_ref_out[decoy_ref_len] = 0;
+        decoy_ref_flush = decoy->nflush; SCPI_ErrorClear(decoy->ctx); decoy_calibrated = 1; decoy_busy = 0;
+    }
+}
+static void decoy_run(void) {
+    if (decoy_busy) return;
+    decoy_busy = 1;
+    decoy_exec();
     decoy_runs++; vh_count("decoy.messages_run_on_a_second_context", 1);
-    if (strcmp(decoy_log, want_log) != 0 || decoy->out.len != want_len || memcmp(decoy->out.p, want_out, want_len) != 0 || decoy->nflush != 1 || SCPI_ErrorCount(decoy->ctx) != 0) {
+    if (strcmp(decoy_log, decoy_ref_log) != 0 || decoy->out.len != decoy_ref_len || memcmp(decoy->out.p ? decoy->out.p : "", decoy_ref_out, decoy_ref_len) != 0 || decoy->nflush != decoy_ref_flush || SCPI_ErrorCount(decoy->ctx) != 0) {
         char key[64]; snprintf(key, sizeof key, "%s:second-context-disturbed", vh_args.property);
-        vh_violation(key, "a second context of the same process, running its own fixed message between the calls of this case, decoded [%s] and wrote \"%s\" (%u flushes, %d errors left); expected [%s] and \"%s\"",
-                     decoy_log, vh_esc(decoy->out.p ? decoy->out.p : "", decoy->out.len), decoy->nflush, (int) SCPI_ErrorCount(decoy->ctx), want_log, vh_esc(want_out, want_len));
+        vh_violation(key, "a second context of the same process, running its own fixed message between the calls of this case, decoded [%s] and wrote \"%s\" (%u flushes, %d errors left); alone, before the first case, it decoded [%s] and wrote \"%s\" (%u flushes)",
+                     decoy_log, vh_esc(decoy->out.p ? decoy->out.p : "", decoy->out.len), decoy->nflush, (int) SCPI_ErrorCount(decoy->ctx), decoy_ref_log, vh_esc(decoy_ref_out, decoy_ref_len), decoy_ref_flush);
         SCPI_ErrorClear(decoy->ctx);
     }
     decoy_busy = 0;
